@@ -416,7 +416,7 @@ type keyline struct {
 func featureKeylineParser(prefix string, depth int) pars.Parser {
 	word := pars.Word(ascii.IsSnake).Error(errFeatureKey)
 	p := []byte(prefix)
-	return func(state *pars.State, result *pars.Result) error {
+	parser := func(state *pars.State, result *pars.Result) error {
 		if err := state.Request(len(p)); err != nil {
 			return err
 		}
@@ -446,6 +446,17 @@ func featureKeylineParser(prefix string, depth int) pars.Parser {
 			return err
 		}
 		result.SetValue(keyline{0, key, 0, loc})
+		return nil
+	}
+	// A line that turns out not to be a key line is left for whoever parses
+	// what follows the table.
+	return func(state *pars.State, result *pars.Result) error {
+		state.Push()
+		if err := parser(state, result); err != nil {
+			state.Pop()
+			return err
+		}
+		state.Drop()
 		return nil
 	}
 }
